@@ -364,9 +364,7 @@ impl ShardSplitter {
                 min_time: old_metadata.min_time,
                 max_time: split_ts,
             };
-            self.metadata
-                .update_shard_metadata(&new_shard_a.shard_id, &new_shard_a, 0)
-                .await?;
+            self.create_new_shard(&new_shard_a).await?;
             progress.shard_a_created = true;
             self.persist_progress(progress).await?;
         }
@@ -385,9 +383,7 @@ impl ShardSplitter {
                 min_time: split_ts,
                 max_time: old_metadata.max_time,
             };
-            self.metadata
-                .update_shard_metadata(&new_shard_b.shard_id, &new_shard_b, 0)
-                .await?;
+            self.create_new_shard(&new_shard_b).await?;
             progress.shard_b_created = true;
             self.persist_progress(progress).await?;
         }
@@ -414,6 +410,28 @@ impl ShardSplitter {
             progress.fence_token, progress.new_shards[0], progress.new_shards[1]
         );
         Ok(())
+    }
+
+    /// Create the metadata of a new shard during cut-over.
+    ///
+    /// An earlier attempt may have created the shard and stopped before the
+    /// step was recorded in the progress file; creating it again would fail
+    /// the generation check forever. The ids of new shards are fresh and only
+    /// known to this split, so a shard that already exists with the same
+    /// ranges and state is that earlier creation and counts as done.
+    async fn create_new_shard(&self, shard: &ShardMetadata) -> Result<()> {
+        if let Some(existing) = self.metadata.get_shard_metadata(&shard.shard_id).await? {
+            if existing.key_range == shard.key_range
+                && existing.state == shard.state
+                && existing.min_time == shard.min_time
+                && existing.max_time == shard.max_time
+            {
+                return Ok(());
+            }
+        }
+        self.metadata
+            .update_shard_metadata(&shard.shard_id, shard, 0)
+            .await
     }
 
     // ── Individual phase implementations ─────────────────────────────
